@@ -8,6 +8,10 @@ ROOT = os.path.dirname(os.path.dirname(os.path.abspath(__file__)))
 
 # id -> (engine, category, technique, text, note, design_ref)
 CHECKS = {
+    "C09": dict(engine="statex", category="model_checking", design_ref="DESIGN.md section 7 C09",
+        technique="exhaustive enumeration of segment/flush histories on the real reassembly.Assembler against a sender-stream reference model, for ISNs incl. wrap-around x page-limit x KeepFrom configurations",
+        text="Every history of 5 events over {SYN, SYN+data, every data segment D[a,b) of a 4-byte stream with/without FIN, bare FIN, age flush} followed by FlushAll is executed on the real assembler for 5 [thorough 8] initial sequence numbers (half-space boundary, the 2^32 wrap inside the stream) x 3 [5] page-limit settings x 2 [4] KeepFrom behaviours of the stream; every ReassembledSG hand-over is compared with the sender model: exact new bytes at pos+skip, skips only over bytes that never arrived and only in a flush step or under a page limit, kept bytes presented again unchanged in front of the new data, nothing held back behind no gap, everything accounted for after FlushAll.",
+        note="Trusted: the sender model (tcpmodel). Oracle applies to stream instances whose SYN was processed before any hand-over; kept bytes may be dropped when the next hand-over starts with a skip. One direction, 4-byte stream."),
     "C10": dict(engine="statex", category="model_checking", design_ref="DESIGN.md section 7 C10",
         technique="exhaustive enumeration of segment/flush histories on the real tcpassembly.Assembler against a sender-stream reference model, for every ISN (incl. wrap-around) x page-limit configuration",
         text="Every history of 5 [thorough 6] events over {SYN, SYN+data, every data segment D[a,b) of a 4-byte stream with/without FIN, bare FIN, age flush} followed by FlushAll is executed on the real assembler for 8 initial sequence numbers (all quarter boundaries of the wrap-safe comparison and the 2^32 wrap inside the stream) x 4 [6] page-limit settings; every hand-over is compared with the sender model: exact bytes at pos+skip, skips only over bytes that never arrived and only in a flush step or under a page limit, nothing held back behind no gap, everything accounted for after FlushAll.",
